@@ -37,7 +37,7 @@ ASSUMPTIONS = [
 
 @st.composite
 def _case(draw, tier):
-    topo = draw(gen.g1_nodes(3, 7))
+    topo = draw(gen.g1_nodes(3, 7, p_const=0.15))  # incl. completed outputs whose value is None / falsy
     depth = draw(st.sampled_from([0, 0, 1, 2, 3]))
     if depth:
         outer, hidden, inactive = draw(gen.nest_spec(topo, depth, {}, permute_names=draw(st.booleans())))
@@ -143,7 +143,7 @@ def _check_failed(tag, case, out, ctx, failing, selected, env, args, values, mod
             if k in values:
                 continue
             raise Violation("c11.value_without_execution", f"[{tag}] partial value {k}={J(v)} but its producer {p['name']} never ran")
-        want = (p["name"], p["outs"].index(k), calls[-1])
+        want = ref.out_terms(p, calls[-1])[k]  # incl. nodes whose (single) output is a constant None / falsy value
         if v != want:
             raise Violation("c11.partial_value_wrong", f"[{tag}] partial {k}={J(v)}, last completed invocation of {p['name']} gives {J(want)}")
     # (2) nothing of the failing node, nothing of its single-shot descendants
